@@ -11,23 +11,31 @@ import (
 
 // Cfg tunes what the generator produces.
 type Cfg struct {
-	ExprDepth  int  // maximum expression depth
-	BlockDepth int  // maximum nesting of blocks
-	MaxStmts   int  // maximum statements per block
-	Any        bool // use the any type
-	Maps       bool // use map types
-	Tracers    bool // wrap sub-expressions in printing identity functions
-	Funcs      bool // generate and call user functions
-	Loops      bool
-	Asserts    bool // type assertions (often panic)
-	RiskyIndex bool // indices that may be out of range
-	Builtins   bool // len, sprint, upper, str2num, ...
-	Shadow     bool // declarations may reuse the name of a variable of an enclosing block
-	EarlyExit  bool // return inside nested blocks of functions
-	Markers    bool // every block prints a marker on entry
-	Recursion  bool // add recursive and mutually recursive functions
-	IterMarks  bool // loop bodies start with print "@iter", function bodies with print "@call"
-	Tests      bool // sprinkle calls of the test built-in
+	ExprDepth       int  // maximum expression depth
+	BlockDepth      int  // maximum nesting of blocks
+	MaxStmts        int  // maximum statements per block
+	Any             bool // use the any type
+	Maps            bool // use map types
+	Tracers         bool // wrap sub-expressions in printing identity functions
+	Funcs           bool // generate and call user functions
+	Loops           bool
+	Asserts         bool // type assertions (often panic)
+	RiskyIndex      bool // indices that may be out of range
+	Builtins        bool // len, sprint, upper, str2num, ...
+	Shadow          bool // declarations may reuse the name of a variable of an enclosing block
+	EarlyExit       bool // return inside nested blocks of functions
+	Markers         bool // every block prints a marker on entry
+	Recursion       bool // add recursive and mutually recursive functions
+	IterMarks       bool // loop bodies start with print "@iter", function bodies with print "@call"
+	Tests           bool // sprinkle calls of the test built-in
+	NoCalls         bool // no function calls at all (not even print): variables are "used" by self-assignment
+	NoTyped         bool // no typed declarations
+	NoLogic         bool // no and / or
+	NoDot           bool // no m.key, only m["key"]
+	ASCII           bool // ASCII-only string contents
+	NoMapStore      bool // no assignment to map entries, no del
+	NoZeroStep      bool // numeric ranges never have step 0
+	NoLoopVarShadow bool // loop variables get fresh names
 }
 
 // Default is a balanced configuration.
@@ -164,6 +172,9 @@ func (g *G) Lit(ty *m.Type) m.Expr {
 	case m.Num:
 		return m.NumLit(Nums[g.intn("num", len(Nums))])
 	case m.Str:
+		if g.Cfg.ASCII {
+			return m.StrLit([]string{"", "a", "b", "ab", "abc", "hello", "a b", "A", "Zz", "1"}[g.intn("str", 10)])
+		}
 		return m.StrLit(Strs[g.intn("str", len(Strs))])
 	case m.Bool:
 		return m.BoolLit(g.intn("bool", 2) == 1)
@@ -449,6 +460,9 @@ func (g *G) Natural(ty *m.Type, d int) m.Expr {
 			}
 		case 6: // slice of a string literal with valid bounds
 			s := Strs[g.intn("str", len(Strs))]
+			if g.Cfg.ASCII {
+				s = []string{"", "a", "ab", "abc", "hello", "a b"}[g.intn("asciistr", 6)]
+			}
 			n := len([]rune(s))
 			lo := g.intn("lo", n+1)
 			hi := lo + g.intn("hi", n-lo+1)
@@ -490,6 +504,9 @@ func (g *G) Natural(ty *m.Type, d int) m.Expr {
 			}
 			return g.bin(op, g.trace(l), g.trace(r), m.TBool)
 		case 5, 6, 7:
+			if g.Cfg.NoLogic {
+				break
+			}
 			op := []string{"and", "or"}[g.intn("logic", 2)]
 			l := g.trace(g.Natural(m.TBool, d-1))
 			r := g.trace(g.Natural(m.TBool, d-1))
@@ -571,7 +588,7 @@ func (g *G) fieldOf(ty *m.Type, d int) m.Expr {
 	for _, v := range g.varsOf(mt) {
 		if len(v.Keys) > 0 && g.chance("fieldvar", 1, 2) {
 			k := v.Keys[g.intn("key", len(v.Keys))]
-			if g.chance("dot", 1, 2) {
+			if !g.Cfg.NoDot && g.chance("dot", 1, 2) {
 				return &m.Dot{X: g.useVar(v), Key: k, Ty: ty}
 			}
 			return &m.Index{X: g.useVar(v), I: m.StrLit(k), Ty: ty}
@@ -585,7 +602,7 @@ func (g *G) fieldOf(ty *m.Type, d int) m.Expr {
 		return nil
 	}
 	k := lit.Keys[g.intn("key", len(lit.Keys))]
-	if g.chance("dot", 1, 2) {
+	if !g.Cfg.NoDot && g.chance("dot", 1, 2) {
 		return &m.Dot{X: lit, Key: k, Ty: ty}
 	}
 	return &m.Index{X: lit, I: m.StrLit(k), Ty: ty}
@@ -633,6 +650,18 @@ func (g *G) CallOf(f *m.Func, d int) *m.Call {
 		c.Args = append(c.Args, g.Conv(p.Ty, d))
 	}
 	return c
+}
+
+// use returns statements that use (and show) the given variables.
+func (g *G) use(label string, vs []*VarInfo) []m.Stmt {
+	if !g.Cfg.NoCalls {
+		return []m.Stmt{PrintVars(label, vs)}
+	}
+	var out []m.Stmt
+	for _, v := range vs {
+		out = append(out, &m.Assign{Target: &m.Var{Name: v.Name, Ty: v.Ty}, Val: &m.Var{Name: v.Name, Ty: v.Ty}})
+	}
+	return out
 }
 
 // Print returns a print statement of the given expressions (wrapped for any).
@@ -686,7 +715,7 @@ func (g *G) Decl(d int) m.Stmt {
 		}
 	}
 	_ = shadowed
-	if g.chance("typed", 1, 4) {
+	if !g.Cfg.NoTyped && g.chance("typed", 1, 4) {
 		ty := g.Type(2)
 		g.Declare(&VarInfo{Name: name, Ty: ty, Len: -1})
 		return &m.Decl{Name: name, Ty: ty, Typed: true}
@@ -724,7 +753,7 @@ func (g *G) Assign(d int) m.Stmt {
 	case v.Ty.K == m.Arr && v.Len > 0 && g.chance("elem", 1, 2):
 		i := g.intn("idx", 2*v.Len) - v.Len
 		return &m.Assign{Target: &m.Index{X: g.useVar(v), I: m.NumLit(float64(i)), Ty: v.Ty.Sub}, Val: g.slotVal(v.Ty.Sub, d)}
-	case v.Ty.K == m.Map && g.chance("field", 2, 3):
+	case v.Ty.K == m.Map && !g.Cfg.NoMapStore && g.chance("field", 2, 3):
 		k := keyPool[g.intn("key", len(keyPool))]
 		found := false
 		for _, kk := range v.Keys {
@@ -733,7 +762,7 @@ func (g *G) Assign(d int) m.Stmt {
 		if !found {
 			v.Keys = append(v.Keys, k)
 		}
-		if g.chance("dot", 1, 2) {
+		if !g.Cfg.NoDot && g.chance("dot", 1, 2) {
 			return &m.Assign{Target: &m.Dot{X: g.useVar(v), Key: k, Ty: v.Ty.Sub}, Val: g.slotVal(v.Ty.Sub, d)}
 		}
 		return &m.Assign{Target: &m.Index{X: g.useVar(v), I: m.StrLit(k), Ty: v.Ty.Sub}, Val: g.slotVal(v.Ty.Sub, d)}
@@ -793,8 +822,8 @@ func (g *G) BlockTail(depth int, label string, tail func() []m.Stmt) []m.Stmt {
 		out = append(out, g.Stmt(depth)...)
 	}
 	if len(g.scopes[len(g.scopes)-1]) > 0 {
-		out = append(out, PrintVars(label, g.scopes[len(g.scopes)-1]))
-	} else if len(out) == 0 {
+		out = append(out, g.use(label, g.scopes[len(g.scopes)-1])...)
+	} else if len(out) == 0 && !g.Cfg.NoCalls {
 		out = append(out, Print(m.StrLit(label)))
 	}
 	if tail != nil {
@@ -825,6 +854,11 @@ func (g *G) Stmt(depth int) []m.Stmt {
 		}
 		ty := g.concrete(1)
 		return []m.Stmt{&m.CallStmt{C: &m.Call{Fn: "test", Args: []m.Expr{m.AsAny(g.Natural(ty, 1)), m.AsAny(g.Natural(ty, 1))}, Ty: m.TNone}}}
+	case k < 10 && g.Cfg.NoCalls:
+		if s := g.Assign(d); s != nil {
+			return []m.Stmt{s}
+		}
+		return []m.Stmt{g.Decl(d)}
 	case k < 10:
 		n := 1 + g.intn("nprint", 3)
 		var args []m.Expr
@@ -866,6 +900,9 @@ func (g *G) Stmt(depth int) []m.Stmt {
 				return []m.Stmt{&m.CallStmt{C: &m.Call{Fn: "del", Args: []m.Expr{g.useVar(v), m.StrLit(key)}, Ty: m.TNone}}}
 			}
 		}
+	}
+	if g.Cfg.NoCalls {
+		return []m.Stmt{g.Decl(d)}
 	}
 	return []m.Stmt{Print(g.Conv(m.TAny, d))}
 }
@@ -919,7 +956,7 @@ func (g *G) While(depth int) []m.Stmt {
 	g.Declare(&VarInfo{Name: cnt, Ty: m.TNum, ReadOnly: true, Len: -1})
 	limit := float64(1 + g.intn("iters", 4))
 	cond := m.Expr(&m.Binary{Op: "<", L: &m.Var{Name: cnt, Ty: m.TNum}, R: m.NumLit(limit), Ty: m.TBool})
-	if g.chance("extracond", 1, 2) {
+	if !g.Cfg.NoLogic && g.chance("extracond", 1, 2) {
 		cond = &m.Binary{Op: "and", L: cond, R: g.Natural(m.TBool, 2), Ty: m.TBool}
 	}
 	g.inLoop++
@@ -942,6 +979,9 @@ func (g *G) ForNum(depth int) m.Stmt {
 	steps := []float64{1, 2, -1, 0.5, -0.5, 0}
 	start := starts[g.intn("start", len(starts))]
 	step := steps[g.intn("step", len(steps))]
+	if g.Cfg.NoZeroStep && step == 0 {
+		step = 1
+	}
 	span := float64(g.intn("span", 4))
 	stop := start + span*step
 	if step == 0 {
@@ -987,7 +1027,7 @@ func (g *G) ForNum(depth int) m.Stmt {
 func (g *G) forBody(s *m.ForNum, depth int) m.Stmt {
 	g.Push()
 	if g.chance("loopvar", 3, 4) {
-		s.V = g.name("i")
+		s.V = g.loopVarName("i")
 		g.Declare(&VarInfo{Name: s.V, Ty: m.TNum, ReadOnly: true, NoShadow: true, Len: -1})
 	}
 	g.inLoop++
@@ -997,7 +1037,7 @@ func (g *G) forBody(s *m.ForNum, depth int) m.Stmt {
 	g.forgetAll()
 	vs := g.Pop()
 	if len(vs) > 0 {
-		s.Body = append([]m.Stmt{PrintVars("i", vs)}, s.Body...)
+		s.Body = append(g.use("i", vs), s.Body...)
 	}
 	if g.Cfg.IterMarks {
 		s.Body = append([]m.Stmt{Print(m.StrLit("@iter"))}, s.Body...)
@@ -1027,7 +1067,7 @@ func (g *G) ForIn(depth int) m.Stmt {
 	}
 	g.Push()
 	if g.chance("loopvar", 3, 4) {
-		s.V = g.name("e")
+		s.V = g.loopVarName("e")
 		g.Declare(&VarInfo{Name: s.V, Ty: vt, ReadOnly: true, NoShadow: true, Len: -1})
 	}
 	g.inLoop++
@@ -1037,7 +1077,7 @@ func (g *G) ForIn(depth int) m.Stmt {
 	g.forgetAll()
 	vs := g.Pop()
 	if len(vs) > 0 {
-		s.Body = append([]m.Stmt{PrintVars("e", vs)}, s.Body...)
+		s.Body = append(g.use("e", vs), s.Body...)
 	}
 	if g.Cfg.IterMarks {
 		s.Body = append([]m.Stmt{Print(m.StrLit("@iter"))}, s.Body...)
@@ -1121,7 +1161,7 @@ func (g *G) Program() *m.Program {
 		}
 		funcs = append(funcs, g.recs...)
 	}
-	top = append(top, PrintVars("end", g.scopes[0]))
+	top = append(top, g.use("end", g.scopes[0])...)
 	// tracers and functions: anywhere at top level (calls may precede definitions)
 	for _, f := range g.Funcs {
 		isGenerated := false
@@ -1238,4 +1278,23 @@ func (g *G) Handler(event string, depth int) *m.Handler {
 	g.inFunc, g.inLoop, g.retType = wasFunc, wasLoop, wasRet
 	g.scopes = saved
 	return hd
+}
+
+// loopVarName returns a fresh name or, with shadowing enabled, the name of a
+// visible variable of an enclosing scope (a loop variable lives in its own scope).
+func (g *G) loopVarName(prefix string) string {
+	if g.Cfg.Shadow && !g.Cfg.NoLoopVarShadow && g.chance("shadow-loopvar", 1, 4) {
+		var cands []*VarInfo
+		for _, v := range g.Visible() {
+			if !v.ReadOnly && !v.NoShadow {
+				cands = append(cands, v)
+			}
+		}
+		// the scope pushed for the loop variable is still empty, so every visible name is an outer one
+		if len(cands) > 0 {
+			g.Shadows++
+			return cands[g.intn("shadowed", len(cands))].Name
+		}
+	}
+	return g.name(prefix)
 }
